@@ -1,6 +1,6 @@
 (* C05 — property theorems only: each restates the full statement and is closed by the lemma proved in Proofs/. *)
 From Coq Require Import ZArith List Bool.
-From NPS Require Import ListAux PySlice NumpySem Scatter BuildIdx XorBroadcast View Index Assign Reduce Scan RaOps Heap Hash HashRun BitArr RLE RLEOps RLE2d DataClass RowsSpec AssignSpec MapSpec Denote ReduceProof ArgmaxProof.
+From NPS Require Import ListAux PySlice NumpySem Scatter BuildIdx XorBroadcast View Index Assign Reduce Scan RaOps Heap Hash HashRun BitArr RLE RLEOps RLE2d DataClass RowsSpec AssignSpec MapSpec Denote ReduceProof ArgmaxProof ColMean RaMean.
 Import ListNotations.
 Open Scope Z_scope.
 
@@ -9,6 +9,12 @@ Theorem C05_reduce_correct :
        all_nonneg ls -> zsum ls = zlen d -> reduce_model A dflt op e d ls = Some (spec_reduce A op e d ls).
 Proof. exact reduce_correct. Qed.
 Print Assumptions C05_reduce_correct.
+
+Theorem C05_ra_row_mean_correct :
+  forall (C : Type) (dv : Z -> Z -> C) (R : list (list Z)),
+       ra_row_mean dv (concat R, map zlen R) = Some (map (fun r : list Z => dv (zsum r) (zlen r)) R).
+Proof. exact (@ra_row_mean_correct). Qed.
+Print Assumptions C05_ra_row_mean_correct.
 
 Theorem C05_first_occurrences :
   forall (R : list (list Z)) (ms : list Z) (k : Z) (prev : option Z) (pre : list Z),
